@@ -475,6 +475,66 @@ func (p *prog) stepMPU(k *kmodel) {
 	p.ackWrite(k, "mpu", rc, w.ID, pre)
 }
 
+// stepBatchDeleteMarkers: ONE DeleteObjects request that names the key n times without a version id. Every entry is
+// a delete without id, so every entry adds a delete marker; they are written within the same millisecond, one after
+// the other, and the response reports their ids in request order - the order in which they became current.
+func (p *prog) stepBatchDeleteMarkers(k *kmodel, n int) {
+	pre := p.begin("batch-delete-markers", k)
+	p.distinct("batch-delete-markers", prevClass(k), k)
+	var sb strings.Builder
+	sb.WriteString(`<Delete xmlns="http://s3.amazonaws.com/doc/2006-03-01/">`)
+	for i := 0; i < n; i++ {
+		sb.WriteString("<Object><Key>" + s3c.XMLEsc(k.name) + "</Key></Object>")
+	}
+	sb.WriteString("</Delete>")
+	body := []byte(sb.String())
+	cl, gi := p.mcl()
+	r := cl.Do(&s3c.Req{Method: "POST", Path: s3c.BucketPath(p.b), Query: "delete=", Body: body, Header: s3c.H{{"Content-MD5", s3c.MD5B64(body)}}})
+	p.tr("POST ?delete naming %s %d times via gw%d -> %s", k.name, n, gi, r)
+	if r.Err != nil {
+		p.transport("batch-delete-markers", r)
+		return
+	}
+	p.c.Eval(1)
+	if !r.OK() {
+		p.c.Observe("batch delete naming one key several times refused: " + r.String())
+		return
+	}
+	var res struct {
+		Deleted []struct {
+			Key                   string
+			DeleteMarker          bool
+			DeleteMarkerVersionId string
+		}
+		Error []struct{ Key, Code string }
+	}
+	if err := xml.Unmarshal(r.Body, &res); err != nil || len(res.Error) > 0 {
+		p.c.Observe("batch delete naming one key several times: unparsable result or per-entry errors")
+		p.stop = true
+		return
+	}
+	if len(k.stack) == 0 && len(res.Deleted) > 0 && !res.Deleted[0].DeleteMarker {
+		p.c.Observe("batch delete of a key that has no versions is acknowledged without creating delete markers")
+		return
+	}
+	for _, d := range res.Deleted {
+		vid := d.DeleteMarkerVersionId
+		if !d.DeleteMarker || vid == "" || vid == nullID {
+			p.viol("batch-delete-markers:entry-acknowledged-without-a-fresh-delete-marker"+pre, true, fmt.Sprintf("entry answered DeleteMarker=%v DeleteMarkerVersionId=%q", d.DeleteMarker, vid), nil)
+			return
+		}
+		if p.issued[vid] {
+			p.viol("batch-delete-markers:version-id-reused"+pre, true, "version id "+vid+" was already issued in this bucket", nil)
+			return
+		}
+		p.issued[vid] = true
+		p.push(k, entry{Vid: vid, Marker: true})
+	}
+	if len(res.Deleted) != n {
+		p.c.Observe(fmt.Sprintf("batch delete naming one key %d times reported %d deletions", n, len(res.Deleted)))
+	}
+}
+
 func (p *prog) stepDeleteMarker(k *kmodel) {
 	pre := p.begin("delete-marker", k)
 	p.distinct("delete-marker", prevClass(k), k)
@@ -1385,7 +1445,11 @@ func (p *prog) run() {
 		case x < wPut+wCopy+wMPU:
 			p.stepMPU(k)
 		case x < wPut+wCopy+wMPU+wDel:
-			p.stepDeleteMarker(k)
+			if p.state == "Enabled" && r.Intn(4) == 0 {
+				p.stepBatchDeleteMarkers(k, 3+r.Intn(10))
+			} else {
+				p.stepDeleteMarker(k)
+			}
 		case x < wPut+wCopy+wMPU+wDel+wDelV:
 			p.pickDeleteVersion(k)
 		case x < wPut+wCopy+wMPU+wDel+wDelV+wList:
